@@ -143,11 +143,16 @@ fn eval_unary_expr(
     context: &mut model::Context,
 ) -> error::Result<model::Value> {
     let value = eval_union_expr(uni.value(), node.clone(), context)?;
-    let inv = uni.inv().len() % 2;
-    if inv == 0 {
-        Ok(value)
-    } else {
+    if uni.inv().is_empty() {
+        return Ok(value);
+    }
+
+    // A negation converts its operand with number(), also when the signs cancel.
+    let value = -value;
+    if uni.inv().len() % 2 == 0 {
         Ok(-value)
+    } else {
+        Ok(value)
     }
 }
 
